@@ -30,17 +30,47 @@ def scan_range_sites():
                 i += 1
             body = src[m.end():i]
             emits = bool(re.search(r"\bi\.send\w*\(|\bi\.cmd\w+\(", body))
-            sites.append((fn, expr, emits, src[:m.start()].count("\n") + 1))
+            sites.append((fn, expr, emits, src[:m.start()].count("\n") + 1, classify(fn, body, src[i:i + 2500])))
     return sites
+
+
+def classify(fn, body, after):
+    """why the traversal order of this map loop cannot influence output or state (one of the three classes proved
+    order-independent in IrcProofs/Determinism.v / Misc.v, or a shape that has no order at all); None = unclassified"""
+    app = re.findall(r"(\w+)\s*=\s*append\(\1\b", body)
+    if app and all(re.search(r"sort\.(Strings|Slice|Sort|Stable)\(\s*%s\b" % re.escape(v), after) for v in set(app)):
+        return "sorted"                      # C01_listings_order_independent
+    if re.search(r"InterestingFor\[.*\]\s*=\s*true", body):
+        return "set"                         # C01_recipients_order_independent
+    if fn == "serialize.go" or re.search(r"\bresult\[\w+\]\s*=", body):
+        return "copy"                        # builds a map / protobuf map message: no order
+    if re.search(r"\b(break|return)\b", body) and not re.search(r"append\(", body):
+        return "search"                      # existence test / unique match (C14 nick uniqueness)
+    if re.search(r"deletes\s*=\s*append", body):
+        return "proposals"                   # ExpireSessions: a list of proposals for raft, not output of the state machine
+    if re.search(r"\bdelete\(|\]\s*=\s*", body):
+        return "bulk-update"                 # C01_bulk_updates_order_independent (commuting per-key updates)
+    return None
 
 
 def run(ck, replay):
     sites = scan_range_sites()
     bad = [s for s in sites if s[2] and (s[0], s[1]) not in ALLOWED_EMITTING]
+    unclassified = [s for s in sites if not s[2] and s[4] is None]
+    classes = {}
+    for s in sites:
+        if not s[2]:
+            classes[s[4] or "unclassified"] = classes.get(s[4] or "unclassified", 0) + 1
     ck.notes["map_range_sites"] = {"total": len(sites), "emitting": [list(s) for s in sites if s[2]],
-                                   "allowed": {"%s:%s" % k: v for k, v in ALLOWED_EMITTING.items()}}
+                                   "allowed": {"%s:%s" % k: v for k, v in ALLOWED_EMITTING.items()},
+                                   "classes_of_non_emitting_sites": classes, "unclassified": [list(s) for s in unclassified]}
     irc_common.run_irc_check(ck, "C01", "c01", replay)
     ck.add_obligation(not bad, "no handler emits output inside a loop over a Go map (except the %d justified sites)" % len(ALLOWED_EMITTING))
+    ck.add_obligation(not unclassified, "every non-emitting loop over a Go map is of a class proved order-independent (sorted listing / recipient set / "
+                                        "commuting bulk update) or has no order (search for a unique match, copy into a map)")
+    if unclassified and not any(v[2] for v in ck.violations):
+        ck.violation("map-range-unclassified", {"what": "a loop over a Go map in internal/ircserver fits none of the order-independent classes (IrcProofs/Determinism.v)",
+                                                "sites": [list(b) for b in unclassified], "obligation": "range-site scan (C01)"}, concrete=False)
     if bad and not any(v[2] for v in ck.violations):
         ck.violation("map-range-emits", {"what": "a handler emits output inside a loop over a Go map: the order of the emitted lines depends on the map iteration order",
                                          "sites": [list(b) for b in bad], "obligation": "range-site scan (C01)"}, concrete=False)
